@@ -1080,6 +1080,35 @@ vbi3_bit_slicer_set_params	(vbi3_bit_slicer *	bs,
 		break;
 	}
 
+	{
+		unsigned int reach;
+
+		/* The last sample read relative to the position where
+		   the CRI was found: the payload loop reads the samples
+		   at (phase_shift + n * step) >> 8 and the next one.
+		   data_samples above is a little less than that, for
+		   Teletext by about one sample. */
+		reach = ((bs->phase_shift
+			  + bs->step * (int64_t)(data_bits - 1)) >> 8) + 2;
+
+		/* Reads (1 << LP_AVG) samples at a time, also while
+		   searching, and has already advanced by one. */
+		if (low_pass_bit_slicer_Y8 == bs->func)
+			reach += (1 << LP_AVG) + 1;
+
+		if (reach >= samples_per_line - sample_offset) {
+			warning (&bs->log,
+				 "%u samples_per_line too small to read "
+				 "%u samples after the CRI.",
+				 samples_per_line, reach);
+			goto failure;
+		}
+
+		cri_end = MIN (cri_end, samples_per_line - reach);
+
+		bs->cri_samples = cri_end - sample_offset;
+	}
+
 	return TRUE;
 
  failure:
